@@ -7,19 +7,19 @@ PATHS = {0: "random", 1: "sequential", 2: "iter", 3: "parse"}
 
 # (H, n, start, path)
 RT_Q = [(1, 3, 0, 0), (1, 3, 0, 1), (1, 3, 0, 3), (1, 12, 5, 0), (0, 0, 0, 1)]
-RT_T = [(1, 3, 0, 2), (0, 7, 3, 0), (1, 4, 0, 0), (1, 8, 0, 1), (0, 12, 0, 3), (1, 0, 0, 0), (1, 12, 5, 1), (1, 12, 5, 3), (1, 7, 0, 0)]
+RT_T = [(0, 7, 3, 0), (1, 4, 0, 0), (1, 8, 0, 1), (0, 12, 0, 3), (1, 0, 0, 0), (1, 12, 5, 1), (1, 12, 5, 3), (1, 7, 0, 0)]
 FB_Q = [(1, 3, 0, 0), (1, 3, 0, 1), (1, 3, 0, 3)]
-FB_T = [(0, 4, 0, 0), (1, 7, 2, 1), (1, 7, 2, 3), (1, 12, 0, 3), (0, 0, 0, 0), (1, 0, 0, 1), (1, 3, 0, 2), (1, 8, 0, 0)]
+FB_T = [(0, 4, 0, 0), (1, 7, 2, 1), (1, 7, 2, 3), (1, 0, 0, 1), (1, 3, 0, 2), (1, 8, 0, 0)]
 # (H, n, start, path, bit_lo, bit_hi): a one-bit range = concrete flipped bit (Reader paths), wider = symbolic (parse_record)
 FL_Q = [(1, 0, 0, 3, 0, 32), (1, 0, 0, 0, 0, 1), (1, 0, 0, 1, 0, 1), (1, 0, 0, 0, 1, 2), (1, 0, 0, 1, 2, 3), (1, 2, 0, 0, 4, 5), (1, 2, 0, 1, 31, 32)]
 FL_T = [(1, 3, 0, 3, 0, 32), (0, 4, 0, 3, 0, 32), (0, 0, 0, 3, 0, 32), (1, 7, 0, 3, 0, 32)] + \
-       [(1, 2, 0, p, b, b + 1) for p in (0, 1, 2) for b in (0, 1, 2, 3, 4, 5, 7, 8, 16, 30, 31)]
+       [(1, 2, 0, p, b, b + 1) for p in (0, 1, 2) for b in (0, 1, 2, 4, 5, 7, 8, 16, 30, 31)]
 # (H, n, start, path, straddle)
 BU_Q = [(1, 3, 0, 3, "false"), (1, 3, 0, 3, "true")]
 BU_T = [(1, 3, 0, 0, "false"), (1, 3, 0, 1, "false"), (0, 4, 0, 3, "false"), (1, 7, 0, 3, "false"), (1, 3, 0, 0, "true")]
 # (H, n, start, path, cut): cut -1 = symbolic visible length (parse_record), >= 0 = concrete (Reader paths)
 TR_Q = [(1, 3, 0, 3, -1), (1, 3, 0, 0, 4), (1, 3, 0, 1, 8), (1, 3, 0, 0, 11), (1, 3, 0, 1, 11), (1, 3, 0, 2, 9)]
-TR_T = [(0, 7, 0, 3, -1), (1, 12, 3, 3, -1), (0, 0, 0, 3, -1)] + [(1, 3, 0, p, c) for p in (0, 1, 2) for c in (0, 1, 4, 7, 8, 9, 10, 11)]
+TR_T = [(0, 7, 0, 3, -1), (1, 12, 3, 3, -1)] + [(1, 3, 0, p, c) for p in (0, 1, 2) for c in (0, 1, 4, 7, 8, 9, 10, 11)]
 
 
 def instances():
@@ -42,11 +42,11 @@ def instances():
         for (H, n, s, p, c) in lst:
             cs = "sym" if c < 0 else str(c)
             out.append((grp, f"c17_trunc_h{H}_{n}_s{s}_{PATHS[p]}_c{cs}", f"truncated::<{H}>({n}, {s}, {p}, {c})",
-                        f"only a strict prefix of the record visible ({'symbolic cut' if c < 0 else f'cut after {c} bytes'}: flushed offset there / zeros after the cut) => never valid data [path {PATHS[p]}, H={H}, {n} data bytes symbolic]", False))
+                        f"only a strict prefix of the record visible ({'symbolic cut' if c < 0 else f'cut after {c} bytes'}: flushed offset there / zeros after the cut) => never valid data [path {PATHS[p]}, H={H}, {n} data bytes symbolic]", c < 0))
     for grp, lst in (("q", FL_Q), ("t", FL_T)):
         for (H, n, s, p, lo, hi) in lst:
             out.append((grp, f"c17_fliplen_h{H}_{n}_s{s}_{PATHS[p]}_b{lo}_{hi}", f"bitflip_len::<{H}>({n}, {s}, {p}, {lo}, {hi})",
-                        f"one flipped bit at a symbolic position in [{lo},{hi}) of the 4-byte length field (a second record follows) => never valid data and no panic [path {PATHS[p]}, H={H}, {n} data bytes symbolic]", False))
+                        f"one flipped bit at a symbolic position in [{lo},{hi}) of the 4-byte length field (a second record follows) => never valid data and no panic [path {PATHS[p]}, H={H}, {n} data bytes symbolic]", hi - lo > 1))
     seen, uniq = set(), []
     for x in out:  # quick entries come first within each family, so a duplicate keeps its quick membership
         if x[1] not in seen:
@@ -73,10 +73,17 @@ def native_replay(rp, workroot):
     if not m:
         return None, "no native reproducer"
     fam, H, n, s, path = m.groups()
+    flat = [b for v in rp.get("concrete_vals", []) for b in v]
+    if fam in ("fliplen", "trunc") and flat:
+        # the solver's concrete values, in kani::any() order: data[12], header[H], then the flipped bit (usize) / the cut (u64)
+        need = MAXD + int(H) + 8
+        if len(flat) >= need:
+            data, hdr = flat[:MAXD], flat[MAXD:MAXD + int(H)]
+            val = int.from_bytes(bytes(flat[MAXD + int(H):need]), "little")
+            return replay_bin("c17", [fam + "_v", H, n, s, path, bytes(data).hex(), bytes(hdr).hex() or "00", val])
     if not fam.startswith("burst"):
         return replay_bin("c17", [fam, H, n, s, path])
     # the solver's concrete values, in kani::any() order: data[12], header[H], s (usize), pat (u32)
-    flat = [b for v in rp.get("concrete_vals", []) for b in v]
     need = MAXD + int(H) + 8 + 4
     if len(flat) < need:
         return None, f"concrete playback values unavailable ({len(flat)} bytes)"
